@@ -399,12 +399,64 @@ STATIC_ALLOW = {
 }
 
 
+_ORDER_FREE = {"set", "frozenset", "sorted", "len", "any", "all", "min", "max", "sum"}
+
+
+def _is_set_expr(e):
+    """syntactically a set: literal, comprehension, set(...)/frozenset(...), set algebra over one of those"""
+    import ast
+
+    if isinstance(e, (ast.Set, ast.SetComp)):
+        return True
+    if isinstance(e, ast.Call):
+        f = e.func
+        if isinstance(f, ast.Name) and f.id in ("set", "frozenset"):
+            return True
+        if isinstance(f, ast.Attribute) and f.attr in ("union", "intersection", "difference", "symmetric_difference") and _is_set_expr(f.value):
+            return True
+    if isinstance(e, ast.BinOp) and isinstance(e.op, (ast.Sub, ast.BitOr, ast.BitAnd, ast.BitXor)):
+        return _is_set_expr(e.left) or _is_set_expr(e.right)
+    return False
+
+
+def _unordered_iterations(tree):
+    """[(line, what)]: places where the iteration order of a syntactic set expression reaches an order-sensitive consumer (a
+    for statement, a list / dict / generator comprehension not directly consumed by an order-free function, list() / tuple() /
+    .extend() / enumerate() / zip() / join()).  The order of a set of objects follows their addresses and hash seed."""
+    import ast
+
+    parents = {}
+    for n in ast.walk(tree):
+        for c in ast.iter_child_nodes(n):
+            parents[c] = n
+    out = []
+    for n in ast.walk(tree):
+        if isinstance(n, (ast.For, ast.AsyncFor)) and _is_set_expr(n.iter):
+            out.append((n.lineno, "for statement over " + ast.unparse(n.iter)[:70]))
+        if isinstance(n, (ast.ListComp, ast.GeneratorExp, ast.DictComp)):
+            for g in n.generators:
+                if _is_set_expr(g.iter):
+                    p_ = parents.get(n)
+                    if isinstance(p_, ast.Call) and isinstance(p_.func, ast.Name) and p_.func.id in _ORDER_FREE:
+                        continue
+                    out.append((n.lineno, "comprehension over " + ast.unparse(g.iter)[:70]))
+        if isinstance(n, ast.Call) and n.args and _is_set_expr(n.args[0]):
+            f = n.func
+            name = f.id if isinstance(f, ast.Name) else (f.attr if isinstance(f, ast.Attribute) else "")
+            if name in ("list", "tuple", "extend", "enumerate", "iter", "next", "zip", "join"):
+                out.append((n.lineno, f"{name}(...) of " + ast.unparse(n.args[0])[:70]))
+    return out
+
+
 def static_obligations(report):
     """Program-text obligations over the whole library (complete for what they state, no input needed):
     (1) randomness is drawn only through RandomSource objects -- no call of the process-global generators
         (`random.<f>(...)` of the stdlib module, `numpy.random.<f>(...)`), whose state is not set by the search's seed;
     (2) no parameter default is an object constructed at import time (`def __init__(self, evaluator=SequentialEvaluator())`):
-        such an object is shared by every search of the process, so a second identical search starts from other state."""
+        such an object is shared by every search of the process, so a second identical search starts from other state;
+    (3) the iteration order of a syntactic set expression (literal, comprehension, set(...), set algebra) never reaches an
+        order-sensitive consumer: that order follows object addresses and the hash seed, which the search's seed does not fix
+        (sets returned by functions are outside this syntactic obligation; those are covered by the cross-process replay)."""
     import ast
 
     n_files = 0
@@ -420,6 +472,8 @@ def static_obligations(report):
                 except SyntaxError:
                     continue
                 n_files += 1
+                for ln_, what_ in _unordered_iterations(tree):
+                    report(f"rt:C08:static:unordered-iteration:{rel}:{what_.split(' ')[0]}", (0, 1), f"{rel}:{ln_}: {what_} -- the order of a set follows object addresses / the hash seed, not the search's seed", rel)
                 std_random, np_names = set(), set()
                 for n in ast.walk(tree):
                     if isinstance(n, ast.Import):
